@@ -471,7 +471,8 @@ impl<'a> Gen<'a> {
                 for (k, _) in &items {
                     self.shadow.maps[m].insert(*k);
                 }
-                Op::FromIter { m: mu, items }
+                let hint = if self.rng.chance(1, 3) { self.rng.range(1, 4) as u8 } else { 0 };
+                Op::FromIter { m: mu, items, hint }
             }
             G::IterMutWrite => Op::IterMutWrite { m: mu, mask: self.rng.next_u64(), pct: *self.rng.pick(&[0u8, 30, 60, 100]), p: self.payload() << 8, values_mut: self.rng.chance(1, 2) },
             G::Entry => {
@@ -641,7 +642,8 @@ impl<'a> Gen<'a> {
                 for k in &items {
                     self.shadow.sets[s].insert(*k);
                 }
-                Op::SFromIter { s: su, items }
+                let hint = if self.rng.chance(1, 3) { self.rng.range(1, 4) as u8 } else { 0 };
+                Op::SFromIter { s: su, items, hint }
             }
             G::SClear => {
                 self.shadow.sets[s].clear();
